@@ -437,6 +437,14 @@ func (s *state) loadAt(t types.Type, ref, off string, fld *fieldRef) Val {
 		out = append(out, x)
 	}
 	v := Val{T: t, S: out}
+	if s.u.eng.rawFieldOK(name) {
+		// a field declared to hold raw (integer-made) pointers: its reference leaf is the RAW marker
+		for i, l := range ls {
+			if strings.HasSuffix(l.path, ".ref") {
+				v.S[i] = rawRef
+			}
+		}
+	}
 	s.assumeLoadFacts(v, ls)
 	return v
 }
